@@ -236,6 +236,19 @@ func (check typecheck) shift(n *node) error {
 }
 
 // comparison type checks a comparison binary expression.
+// chanComparable returns true if t0 and t1 are channel types of identical element types, one at least
+// bidirectional and one at least not a defined type: each is then assignable to the other or conversely.
+func chanComparable(t0, t1 *itype) bool {
+	if !isChan(t0) || !isChan(t1) || t0.name != "" && t1.name != "" {
+		return false
+	}
+	if t0.TypeOf().ChanDir() != reflect.BothDir && t1.TypeOf().ChanDir() != reflect.BothDir {
+		return false
+	}
+	e0, e1 := chanElement(t0), chanElement(t1)
+	return e0 != nil && e1 != nil && e0.id() == e1.id()
+}
+
 func (check typecheck) comparison(n *node) error {
 	t0, t1 := n.child[0].typ, n.child[1].typ
 
@@ -245,7 +258,7 @@ func (check typecheck) comparison(n *node) error {
 
 	ok := false
 
-	if !isInterface(t0) && !isInterface(t1) && !t0.isNil() && !t1.isNil() && t0.untyped == t1.untyped && t0.id() != t1.id() && !typeDefined(t0, t1) && !(isChan(t0) && isChan(t1) && (t0.name == "" || t1.name == "")) {
+	if !isInterface(t0) && !isInterface(t1) && !t0.isNil() && !t1.isNil() && t0.untyped == t1.untyped && t0.id() != t1.id() && !typeDefined(t0, t1) && !chanComparable(t0, t1) {
 		// Non interface types must be really equals, except a bidirectional channel and a directional
 		// one, assignable to each other when one of the types is not a defined type.
 		return n.cfgErrorf("invalid operation: mismatched types %s and %s", t0.id(), t1.id())
